@@ -17,8 +17,12 @@ def main():
         return ("value", x)
     f.__module__ = "evictmod"
     out = []
+    # names of the cached function: also names that contain what looks like the directory of a result (32 hexadecimal digits), in
+    # the middle or at the start (a name that IS 32 hexadecimal digits cannot be told from a result by its name: not used)
+    NAMES = ["f", "step_0123456789abcdef0123456789abcdef", "f", "deadbeef0123456789abcdef01234567_v2", "f", "f"]
     for ci, case in enumerate(job["cases"]):
         root = os.path.join(base, "c%d" % ci)
+        f.__name__ = f.__qualname__ = NAMES[(ci + int(case.get("name_shift", 0))) % len(NAMES)]
         mem = joblib.Memory(root, verbose=0)
         g = mem.cache(f)
         n = case["n"]; dirs = {}
